@@ -145,6 +145,7 @@ class Ctx:
                 explained.add(i.rule)
         if any(i.outcome == VIOLATED for i in self.instances):
             return          # a reported violation usually ends its rule early: fewer instances are expected then
+        explained |= set(self.extra.get("coverage_waived", ()))      # a rule whose part was taken over by another rule says so
         for rule, n in sorted(exp.items()):
             if rule in explained:
                 continue
